@@ -121,7 +121,9 @@ def spec_families():
                                              b'HTTP/1.1 100 Continue', b'HTTP/1.1 200 OK', b'HTTP/1.1 204 No Content', b'HTTP/1.1 301 Moved',
                                              b'HTTP/1.1 400 Bad Request', b'HTTP/1.1 404 Not Found', b'HTTP/1.1 426 Upgrade Required',
                                              b'HTTP/1.1 500 Oops', b'HTTP/1.1 1010 x', b'HTTP/1.1 101abc x', b'HTTP/1.1 1015 x', b'HTTP/1.1 101.5 x', b'HTTP/1.1 10 x', b'HTTP/1.1 abc Nope', b'HTTP/1.1', b'',
-                                             b'HTTP/1.1 -101 neg', b'HTTP/1.1 101.0 float', b'HTTP/1.1 404 {x} {0} {', b'HTTP/1.1 {} {}', b'HTTP/1.1 503 %s %(x)s')]
+                                             b'HTTP/1.1 -101 neg', b'HTTP/1.1 101.0 float', b'HTTP/1.1 404 {x} {0} {', b'HTTP/1.1 {} {}', b'HTTP/1.1 503 %s %(x)s',
+                                             'HTTP/1.1 \uff11\uff10\uff11 Switching'.encode('utf-8'), 'HTTP/1.1 \u0661\u0660\u0661 x'.encode('utf-8'), b'HTTP/1.1\x1f101\x1fx',
+                                             b'HTTP/1.1\xa0101\xa0x', b'HTTP/1.1 +101 x', b'HTTP/1.1 1_01 x', b'HTTP/1.1 0101 x', b'HTTP/1.1 00101 x')]
     fam['upgrade'] = [{'upgrade': u} for u in (None, b'h2c', b'websocketx', b'web socket', b'', b'websocket ', b'{}', b'{0}', b'{', b'websocket}', b'TLS/1.0, {x}', b'%s %d')]
     fam['size'] = [{'size': 16383}, {'size': 16384}, {'size': 16385}, {'size': 16386}, {'size': 20000}, {'size': 40000},
                    {'unterminated': 10}, {'unterminated': 16384}, {'unterminated': 17000}, {'unterminated': 40000},
